@@ -126,6 +126,43 @@ def free_layout(line, j, o, amp, trail=None, fillers=(), indent="   ", gap=" "):
     return [first] + list(fillers) + [second], kind
 
 
+def multi_layout(line, cuts, amp=True, fillers=(), indent="   "):
+    """physical lines for `line` continued at several split points [(j, o), ...] (ascending).
+    A cut with o > 0 inside a character literal is a character-context continuation: the '&'
+    follows the last character directly and the next line starts with '&' (3.3.1.3.1); a cut with
+    o == 0 is a token boundary ('&' after a blank; the next line starts with '&' iff `amp`).
+    fillers: lines ('' or '!...') placed after every continued line.  Only literal-interior and
+    plain token-boundary cuts are supported (None otherwise)."""
+    sp = tok_spans(line)
+    pos = []
+    for (j, o) in cuts:
+        if j >= len(sp):
+            return None
+        k, a, b = sp[j]
+        if o >= b - a:
+            return None
+        if o > 0 and k != "s":
+            return None
+        if o == 0 and j > 0 and sp[j - 1][2] == a:
+            return None              # adjacent tokens: may be one lexical token (see free_layout)
+        pos.append((a + o, o > 0))
+    out = []
+    start = 0
+    lead = ""
+    for cut, inlit in pos:
+        part = line[start:cut]
+        if inlit:
+            out.append(lead + part + "&")
+            lead = indent + "&"
+        else:
+            out.append(lead + part.rstrip(" ") + " &")
+            lead = indent + ("&" if amp else "")
+        out += list(fillers)
+        start = cut
+    out.append(lead + line[start:])
+    return out
+
+
 def squeeze(text):
     """drop blanks outside character literals"""
     out = []
